@@ -3,7 +3,7 @@
 From Coq Require Import Sorting.Sorted Sorting.Permutation.
 From Sdns Require C02.Model C02.Proofs_Gen.
 From Sdns Require Import Common.Base Common.GoList Gen.C14 C14.Model C14.Run
-  C14.Proofs_rsa C14.Proofs_keytag C14.Proofs_rsamd5 C14.Proofs_canon C14.Proofs_verify C14.Proofs_offset C14.Proofs_walk C14.Proofs_loops C14.Proofs_synth C14.Proofs_ds.
+  C14.Proofs_rsa C14.Proofs_keytag C14.Proofs_rsamd5 C14.Proofs_canon C14.Proofs_verify C14.Proofs_offset C14.Proofs_walk C14.Proofs_loops C14.Proofs_synth C14.Proofs_ds C14.Proofs_sig C14.Proofs_match.
 Open Scope N_scope.
 
 (* the root zone's KSK-2017: flags 257, protocol 3, algorithm 8; its published key tag is 20326 *)
@@ -220,4 +220,101 @@ Example ds_order_needs_fqdn_owners :
   verify_ds ds_ex_H ds_ex_km [ds_ex_relative; ds_ex_good] = (false, true) /\
   verify_ds_code ds_ex_H ds_ex_km [ds_ex_relative; ds_ex_good] = (false, 1) /\
   verify_ds_code ds_ex_H ds_ex_km [ds_ex_good; ds_ex_relative] = (false, 0).
+Proof. vm_compute. repeat split; reflexivity. Qed.
+
+(* ---------------------------------------------------------------- RRSIG side, in order *)
+(* two more keys with the tag, algorithm, flags and owner of the example key: one with two words of the material
+   exchanged (a well-formed Ed25519 key), one with a zero word appended (34 octets: not an Ed25519 key).  The oracle
+   accepts under a key whose material begins with 0x97 only. *)
+Definition sig_ex_twin : dnskey := mk_key (bs "Example.") 1 257 3 15 (bs "lqKXTS0iS8Aa25FQkUd9RMzZHJpBoRQwAQEX1SxZJA4=").
+Definition sig_ex_long : dnskey := mk_key (bs "Example.") 1 257 3 15 (bs "l02Woi0iS8Aa25FQkUd9RMzZHJpBoRQwAQEX1SxZJA4AAA==").
+Definition sig_ex_tag : N := key_tag walk_example_key.
+Definition sig_ex_H := fun (_ : N) (_ : list N) => @nil N.
+Definition sig_ex_F2 := fun (_ : N) (_ : list N) => false.
+Definition sig_ex_F4 := fun (_ : N) (_ _ _ : list N) => false.
+Definition sig_ex_EDV := fun (pub _ _ : list N) => match pub with 151 :: _ => true | _ => false end.
+Definition sig_ex_none := fun (_ _ _ : list N) => false.
+Definition sig_ex_LIBV := fun (_ : dnskey) (_ : rrsig) (_ : list rr) => 5.
+Definition sig_ex_good : rrsig := walk_example_sig (bs "www.EXAMPLE.") 1 2.
+Definition sig_ex_labels : rrsig := walk_example_sig (bs "www.EXAMPLE.") 1 9.
+Definition sig_ex_alg : rrsig :=
+  mk_sig (bs "www.example.") 1 1 16 2 300 2100000000 1500000000 sig_ex_tag (bs "EXAMPLE.") (s_signature sig_ex_good).
+Definition sig_ex_old : rrsig :=
+  mk_sig (bs "www.example.") 1 1 15 2 300 1600000000 1500000000 sig_ex_tag (bs "example.") (s_signature sig_ex_good).
+
+Example one_sig_code_example :
+  let one := verify_one_sig_code sig_ex_H sig_ex_F2 sig_ex_F4 in
+  key_tag sig_ex_twin = sig_ex_tag /\ key_tag sig_ex_long = sig_ex_tag /\
+  (* accepted whatever the order and repetition of the bucket *)
+  one sig_ex_EDV sig_ex_LIBV [(sig_ex_tag, [sig_ex_long; sig_ex_twin; walk_example_key; sig_ex_twin])] [walk_example_a] sig_ex_good true = 0 /\
+  one sig_ex_EDV sig_ex_LIBV [(sig_ex_tag, [walk_example_key; sig_ex_long])] [walk_example_a] sig_ex_good true = 0 /\
+  verify_one_sig sig_ex_H sig_ex_F2 sig_ex_F4 sig_ex_EDV sig_ex_LIBV [(sig_ex_tag, [sig_ex_long; sig_ex_twin; walk_example_key])] [walk_example_a] sig_ex_good true = true /\
+  (* no key verifies: the error is the one of the key that sorts last by identity — the 34-octet key ("no key", 2),
+     whose text sorts behind the example key's ("bad signature", 3) — in either order of the bucket *)
+  one sig_ex_none sig_ex_LIBV [(sig_ex_tag, [sig_ex_long; walk_example_key])] [walk_example_a] sig_ex_good true = 2 /\
+  one sig_ex_none sig_ex_LIBV [(sig_ex_tag, [walk_example_key; sig_ex_long])] [walk_example_a] sig_ex_good true = 2 /\
+  one sig_ex_none sig_ex_LIBV [(sig_ex_tag, [sig_ex_twin; walk_example_key])] [walk_example_a] sig_ex_good true = 3 /\
+  one sig_ex_none sig_ex_LIBV [(sig_ex_tag, [walk_example_key])] [walk_example_a] sig_ex_good true = 3 /\
+  (* the tests in the order of the code *)
+  one sig_ex_EDV sig_ex_LIBV [(sig_ex_tag + 1, [walk_example_key])] [walk_example_a] sig_ex_good false = 2 /\
+  one sig_ex_EDV sig_ex_LIBV [(sig_ex_tag, [walk_example_key])] [walk_example_a] sig_ex_alg false = 5 /\
+  one sig_ex_EDV sig_ex_LIBV [(sig_ex_tag, [walk_example_key])] [walk_example_a] sig_ex_alg true = 6 /\
+  one sig_ex_EDV sig_ex_LIBV [(sig_ex_tag, [walk_example_key])] [walk_example_a] sig_ex_labels true = 1.
+Proof. vm_compute. repeat split; reflexivity. Qed.
+
+(* whole messages: the A RRset of the walk example under signatures that fail for different reasons *)
+Definition sig_ex_txt : rr := mk_rr (bs "aaa.example.") 16 1 300 (bs "TXT") [FBytes [1; 120]].
+Example rrsig_code_example :
+  let code := verify_rrsig_code sig_ex_H sig_ex_F2 sig_ex_F4 sig_ex_EDV sig_ex_LIBV (bs "example") [(sig_ex_tag, [walk_example_key])] in
+  let verdict := verify_rrsig sig_ex_H sig_ex_F2 sig_ex_F4 sig_ex_EDV sig_ex_LIBV (bs "example") [(sig_ex_tag, [walk_example_key])] in
+  (* failing siblings, repeated and in any order, next to a good signature: accepted *)
+  code [MR walk_example_a; MS sig_ex_old false; MS sig_ex_labels true; MS sig_ex_good true; MS sig_ex_old false] [] = 0 /\
+  code [MS sig_ex_good true; MS sig_ex_labels true] [MS sig_ex_old false; MR walk_example_a] = 0 /\
+  verdict [MR walk_example_a; MS sig_ex_old false; MS sig_ex_labels true; MS sig_ex_good true] [] = true /\
+  (* only failing ones: refused, and the error is the one of the signature that sorts last by identity (the one with
+     the larger label count: "missing signed", 1; without it the unsupported algorithm, 6, behind the expired one, 5) *)
+  code [MR walk_example_a; MS sig_ex_old false; MS sig_ex_labels true] [] = 1 /\
+  code [MR walk_example_a; MS sig_ex_labels true; MS sig_ex_old false] [] = 1 /\
+  code [MR walk_example_a; MS sig_ex_alg true; MS sig_ex_old false] [] = 6 /\
+  code [MR walk_example_a; MS sig_ex_old false; MS sig_ex_alg true; MS sig_ex_old false] [] = 6 /\
+  code [MR walk_example_a; MS sig_ex_old false] [] = 5 /\
+  verdict [MR walk_example_a; MS sig_ex_old false; MS sig_ex_labels true] [] = false /\
+  (* two failing RRsets: the one whose owner sorts first is reported, wherever it stands in the message *)
+  code [MR walk_example_a; MS sig_ex_old false; MR sig_ex_txt] [] = 1 /\
+  code [MR sig_ex_txt; MR walk_example_a; MS sig_ex_old false] [] = 1 /\
+  code [MR walk_example_a; MS sig_ex_old false] [MR sig_ex_txt] = 1 /\
+  (* no RRSIG at all; a foreign answer record; an empty key map; nothing to validate *)
+  code [MR walk_example_a; MR sig_ex_txt] [] = 7 /\
+  code [MR walk_example_a; MS sig_ex_good true; MR (mk_rr (bs "evilexample.") 1 1 60 (bs "A") [FBytes [192; 0; 2; 9]])] [] = 1 /\
+  verify_rrsig_code sig_ex_H sig_ex_F2 sig_ex_F4 sig_ex_EDV sig_ex_LIBV (bs "example") [] [MR walk_example_a; MS sig_ex_good true] [] = 2 /\
+  code [] walk_example_ns = 0 /\
+  (* the hypotheses of signature_and_rrset_order_and_repetition_only_select_the_error hold for these signatures *)
+  forallb (fun s => is_fqdn (s_name s) && is_fqdn (s_signer s)) [sig_ex_good; sig_ex_labels; sig_ex_alg; sig_ex_old] = true.
+Proof. vm_compute. repeat split; reflexivity. Qed.
+
+(* the hypothesis of signature_and_rrset_order_and_repetition_only_select_the_error is needed: an RRSIG whose signer
+   field is not fully qualified has the identity of its fully-qualified twin (rrsigID applies dns.Fqdn), is kept as the
+   first of the two, and names no key of the bucket (strings.EqualFold on the raw names) — VerifyRRSIG then reports
+   ErrMissingDNSKEY although the twin alone, or in front, is accepted (stricter; replayed on the Go code on every run
+   as the cases probe-relative-signer-first / -second, CaseMsgProbe) *)
+Definition sig_ex_relative : rrsig :=
+  mk_sig (bs "www.EXAMPLE.") 1 1 15 2 300 2100000000 1500000000 sig_ex_tag (bs "EXAMPLE") (s_signature sig_ex_good).
+Example sig_order_needs_fqdn_signers :
+  let code := verify_rrsig_code sig_ex_H sig_ex_F2 sig_ex_F4 sig_ex_EDV sig_ex_LIBV (bs "example") [(sig_ex_tag, [walk_example_key])] in
+  let verdict := verify_rrsig sig_ex_H sig_ex_F2 sig_ex_F4 sig_ex_EDV sig_ex_LIBV (bs "example") [(sig_ex_tag, [walk_example_key])] in
+  sv_same (sig_ex_relative, true) (sig_ex_good, true) = true /\
+  verdict [MR walk_example_a; MS sig_ex_relative true; MS sig_ex_good true] [] = true /\
+  code [MR walk_example_a; MS sig_ex_relative true; MS sig_ex_good true] [] = 2 /\
+  code [MR walk_example_a; MS sig_ex_good true; MS sig_ex_relative true] [] = 0.
+Proof. vm_compute. repeat split; reflexivity. Qed.
+
+(* the translated signatureMatchesRRset on the example: accepted for the good signature, refused for the one that claims
+   more labels than the owner has and for a set whose records spell the owner differently; the owner is an escape-free name *)
+Example signature_matches_translation_example :
+  go_signatureMatchesRRset 40 (sig_rec sig_ex_good) (map rr_iface [walk_example_a]) = Some true /\
+  go_signatureMatchesRRset 40 (sig_rec sig_ex_labels) (map rr_iface [walk_example_a]) = Some false /\
+  go_signatureMatchesRRset 40 (sig_rec sig_ex_good)
+    (map rr_iface [walk_example_a; mk_rr (bs "www.example.") 1 1 300 (bs "A") [FBytes [192; 0; 2; 2]]]) = Some false /\
+  r_name walk_example_a = C02.Proofs_Gen.present [bs "WWW"; bs "example"] /\
+  count_label (r_name walk_example_a) = 2%N.
 Proof. vm_compute. repeat split; reflexivity. Qed.
